@@ -876,13 +876,13 @@ def streams(ctx):
     rng = ctx.rng('lint-structured')
     run_cases(ctx, 'lint-structured', 'random BareScript source (assignments, calls, if/elif/else, while, for, break/continue, '
               'functions with duplicate/unused arguments, returns, user labels and jumps, effect-free statements) parsed by the real '
-              'parse_script; non-trivial = lint reports at least one warning', structured_cases(rng, ctx.scale(1500, 16000)))
+              'parse_script; non-trivial = lint reports at least one warning', structured_cases(rng, ctx.scale(2500, 25000)))
 
     rng = ctx.rng('lint-jump')
     run_cases(ctx, 'lint-jump', 'random hand-built jump-level models, schema-validated: user labels (incl. non-ASCII, generated-name '
               'look-alikes), duplicate labels, dangling jumps, duplicate functions/arguments, unused labels, effect-free expression '
               'statements, includes; non-trivial = at least one warning',
-              [(f'jump{i}', JumpGen(rng).model()) for i in range(ctx.scale(2000, 24000))])
+              [(f'jump{i}', JumpGen(rng).model()) for i in range(ctx.scale(3500, 40000))])
 
     shipped = []
     inc_dir = os.path.join(os.path.dirname(fw.impl()['model'].__file__), 'include')
